@@ -18,7 +18,7 @@ pub struct NetSpec {
     pub plan: String,
     /// "sequential" | "simultaneous"
     pub join: String,
-    /// dead addresses prepended to every bootstrap list
+    /// dead addresses prepended to every bootstrap list (+ 100: and two entries that are not addresses in front of them)
     pub dead_bootstrap: usize,
     pub seed: u64,
 }
@@ -45,12 +45,20 @@ pub fn build(spec: &NetSpec) -> Net {
     let mut servers = vec![];
     let mut clients = vec![];
     let first_ip = node_ip(&spec.plan, 0);
-    let mut boot: Vec<String> = (0..spec.dead_bootstrap).map(|i| format!("{}:6881", Ipv4Addr::new(10, 250, 0, i as u8 + 1))).collect();
-    if spec.dead_bootstrap > 30 {
+    // dead_bootstrap = 100 + k: k dead addresses as usual, and in FRONT of everything two entries that are not addresses at all
+    // (no port; a port that is not a number - what a retired host name or a typo in a configuration file amounts to, without
+    // asking a resolver)
+    let (junk, dead) = (spec.dead_bootstrap >= 100, spec.dead_bootstrap % 100);
+    let mut boot: Vec<String> = (0..dead).map(|i| format!("{}:6881", Ipv4Addr::new(10, 250, 0, i as u8 + 1))).collect();
+    if dead > 30 {
         // the live server in the middle of a long list
-        boot.insert(spec.dead_bootstrap / 2, format!("{first_ip}:6881"));
+        boot.insert(dead / 2, format!("{first_ip}:6881"));
     } else {
         boot.push(format!("{first_ip}:6881"));
+    }
+    if junk {
+        boot.insert(0, "10.250.9.9:notaport".to_string());
+        boot.insert(0, "no-port-entry".to_string());
     }
     let mk = |i: usize, server: bool, boot: &[String], plan: &str| {
         let ip = node_ip(plan, i);
